@@ -64,6 +64,21 @@ func (e *Enc) evalClause(fr *Frame, c *Clause, cur, old *St, extra map[string]SV
 				ctx.loop = li
 			}
 		}
+		// iter(e) in the invariant of an inner loop: e at the start of the current iteration of
+		// the innermost enclosing loop
+		if ctx.loop != nil {
+			var parent *loopInfo
+			for _, li := range fr.loops {
+				if li != ctx.loop && li.blocks[ctx.loop.head] && li.headSt != nil {
+					if parent == nil || len(li.blocks) < len(parent.blocks) {
+						parent = li
+					}
+				}
+			}
+			if parent != nil {
+				ctx.iter = parent.headSt
+			}
+		}
 	}
 	for k, v := range extra {
 		ctx.params[k] = v
@@ -418,6 +433,12 @@ func (e *Enc) evalIdent(name string, ctx *SpecCtx) (SV, error) {
 // lookupLocal resolves a source variable name to its current value: the local Alloc with that
 // comment. name#k selects the k-th (1-based) alloc of that name in instruction order.
 func (e *Enc) lookupLocal(fr *Frame, name string, st *St) (SV, bool) {
+	// $up_x: the variable x of the frame that expanded this one in place (for names shadowed by
+	// the expanded callee's own locals)
+	for strings.HasPrefix(name, "$up_") && fr != nil && fr.caller != nil {
+		name = strings.TrimPrefix(name, "$up_")
+		fr = fr.caller
+	}
 	for f := fr; f != nil; f = f.caller {
 		if sv, ok := e.lookupLocal1(f, name, st); ok {
 			return sv, true
@@ -1118,7 +1139,7 @@ func (e *Enc) evalCall(n *SCall, ctx *SpecCtx) (SV, error) {
 			return SV{}, fmt.Errorf("fresh() needs an old state")
 		}
 		a := e.allocComp()
-		return SV{T: and(not(eq(t, "nil")), not(sel(e.get(ctx.old, a), t)), sel(e.get(ctx.cur, a), t)), Sort: "Bool"}, nil
+		return SV{T: and(not(eq(t, "nil")), not(isAlloc(e.get(ctx.old, a), t)), isAlloc(e.get(ctx.cur, a), t)), Sort: "Bool"}, nil
 	case "allocated":
 		v, err := arg(0)
 		if err != nil {
@@ -1128,7 +1149,7 @@ func (e *Enc) evalCall(n *SCall, ctx *SpecCtx) (SV, error) {
 		if v.Sort == "Slice" {
 			t = "(s_arr " + v.T + ")"
 		}
-		return SV{T: sel(e.get(ctx.cur, e.allocComp()), t), Sort: "Bool"}, nil
+		return SV{T: isAlloc(e.get(ctx.cur, e.allocComp()), t), Sort: "Bool"}, nil
 	case "typeis":
 		// typeis(x, T): dynamic type of interface x is T
 		v, err := arg(0)
@@ -1695,7 +1716,7 @@ func (e *Enc) applyModifies(fc *FuncContract, env map[string]SV, callee *ssa.Fun
 			n := e.havocComp(post, c, "")
 			pred := strings.ReplaceAll(t.pred, "o!", "o")
 			a := e.get(pre, e.allocComp())
-			e.assume(fmt.Sprintf("(forall ((o Ref)) (! (=> (and (select %s o) (not %s)) (= (select %s o) (select %s o))) :pattern ((select %s o))))", a, pred, n, cur, n))
+			e.assume(fmt.Sprintf("(forall ((o Ref)) (! (=> (and (isalloc %s o) (not %s)) (= (select %s o) (select %s o))) :pattern ((select %s o))))", a, pred, n, cur, n))
 			ms.add(c.Fam)
 		default:
 			_, vs := arraySorts(c.Sort)
@@ -1781,7 +1802,7 @@ func (e *Enc) frameGoals(st *St) map[string]string {
 		}
 		var goal string
 		if strings.HasPrefix(c.Sort, "(Array Ref ") {
-			goal = fmt.Sprintf("(forall ((o Ref)) (! (=> %s (= (select %s o) (select %s o))) :pattern ((select %s o))))", and(append([]string{sel(a0, "o")}, excl...)...), v1, v0, v1)
+			goal = fmt.Sprintf("(forall ((o Ref)) (! (=> %s (= (select %s o) (select %s o))) :pattern ((select %s o))))", and(append([]string{isAlloc(a0, "o")}, excl...)...), v1, v0, v1)
 		} else if c.Kind == "clock" || c.Fam == "G:ctxdone" {
 			continue
 		} else {
